@@ -77,6 +77,11 @@ def enc4Bytes (p : V4.Pkt4) : Bytes :=
   | .ok b => b
   | _ => []
 
+/-- prefix-length octet and address of an IAPrefix (`Prefix == nil` writes 17 zero bytes) -/
+def encPfx : Option (Nat × IP) → Bytes
+  | some (ones, ip) => UInt8.ofNat ones :: write16 ip
+  | none => 0 :: zeros 16
+
 mutual
 /-- the option's value bytes: its `ToBytes()` -/
 def encOpt : Opt6 → Bytes
@@ -97,10 +102,7 @@ def encOpt : Opt6 → Bytes
   | .domainSearch l => l.toBytes
   | .iapd iaid t1 t2 os => copyInto 4 iaid ++ encDur t1 ++ encDur t2 ++ encOpts os
   | .iaprefix p v pfx os =>
-    encDur p ++ encDur v ++
-      (match pfx with
-       | some (ones, ip) => UInt8.ofNat ones :: write16 ip
-       | none => 0 :: zeros 16) ++ encOpts os
+    encDur p ++ encDur v ++ encPfx pfx ++ encOpts os
   | .infoRefresh d => encDur d
   | .remoteID en id => be32 en ++ id
   | .fqdn f n => f :: n.toBytes
